@@ -151,6 +151,16 @@ CLAIMS = {
         note=TRUST,
         technique="static analysis: symmetry/normal-form argument on return expressions, sibling comparison, recursion-shape check",
         ref="DESIGN.md section 4 C15"),
+    "C18": dict(
+        text="Static analysis, partial: in Value::GroupBy the grouping key is consulted for every member of every "
+             "element (use of the key parameters inside the element/member loops); on a removed member the walk "
+             "continues (CFG reachability from the 'member is Undefined' edge must not reach a return before the loop "
+             "condition); the source is touched only through read-only operations and never moved from, the result is "
+             "reset to an object first; renderLoop passes the group attribute with the base the scanner recorded and "
+             "groups/sorts a by-value working copy. Necessary structural clauses; not the partition equality.",
+        note=TRUST,
+        technique="static analysis: parameter-use flow and CFG reachability checks, read-only call accounting",
+        ref="DESIGN.md section 4 C18"),
     "C20": dict(
         text="Static analysis, partial but exhaustive over code points: every CFG path of the three "
              "UnicodeToUTF::ToUTF specialisations is summarised in a bit-level abstract domain (interval of the code "
